@@ -35,6 +35,52 @@ macro_rules! pad_dispatch {
 }
 
 
+/// A byte buffer that starts at a deliberately odd address: the data sits `off` bytes into its allocation
+/// (off in 0..16, derived from the content), so that code which treats an aligned and an unaligned slice differently
+/// (`align_to`, word-wise loops with a head and a tail) meets both.
+pub struct MisVec {
+    v: Vec<u8>,
+    off: usize,
+}
+impl MisVec {
+    pub fn from_slice(s: &[u8]) -> Self {
+        let off = (s.len() * 7 + s.first().copied().unwrap_or(0) as usize) % 16;
+        let mut v = vec![0x5Au8; off + s.len()];
+        v[off..].copy_from_slice(s);
+        MisVec { v, off }
+    }
+    /// the same with another offset (input buffers: the input and the output of a buffer-to-buffer call then sit at
+    /// unrelated alignments)
+    pub fn from_slice_in(s: &[u8]) -> Self {
+        let off = (s.len() * 3 + 5) % 16;
+        let mut v = vec![0xC3u8; off + s.len()];
+        v[off..].copy_from_slice(s);
+        MisVec { v, off }
+    }
+    pub fn resize(&mut self, n: usize, fill: u8) {
+        self.v.resize(self.off + n, fill);
+    }
+    pub fn to_vec(&self) -> Vec<u8> {
+        self.v[self.off..].to_vec()
+    }
+}
+impl core::ops::Deref for MisVec {
+    type Target = [u8];
+    fn deref(&self) -> &[u8] {
+        &self.v[self.off..]
+    }
+}
+impl core::ops::DerefMut for MisVec {
+    fn deref_mut(&mut self) -> &mut [u8] {
+        &mut self.v[self.off..]
+    }
+}
+impl From<MisVec> for Vec<u8> {
+    fn from(m: MisVec) -> Vec<u8> {
+        m.to_vec()
+    }
+}
+
 pub struct IoOut {
     pub res: Res,
     /// content of the output buffer after the call (in place: the buffer itself)
@@ -51,7 +97,8 @@ impl IoOut {
             outlen: 0,
         }
     }
-    fn ok(out: Vec<u8>) -> Self {
+    fn ok(out: impl Into<Vec<u8>>) -> Self {
+        let out: Vec<u8> = out.into();
         let n = out.len();
         IoOut {
             res: Res::Ok,
@@ -59,7 +106,8 @@ impl IoOut {
             outlen: n,
         }
     }
-    fn err(out: Vec<u8>) -> Self {
+    fn err(out: impl Into<Vec<u8>>) -> Self {
+        let out: Vec<u8> = out.into();
         IoOut {
             res: Res::Err,
             out,
@@ -82,6 +130,8 @@ pub trait Obj {
     /// block-level call. `junk == None`: in place, else buffer-to-buffer into a buffer holding `junk`
     /// `inout`: use the `*_inout` entry points (a mode may override any provided method, so all are driven)
     fn blocks(&mut self, inp: &[u8], junk: Option<&[u8]>, multi: bool, inout: bool) -> IoOut {
+        let inp_m = MisVec::from_slice_in(inp);
+        let inp: &[u8] = &inp_m;
         IoOut::unsupported()
     }
     /// keystream written into a buffer (cores only): `write_keystream_block[s]`
@@ -90,10 +140,14 @@ pub trait Obj {
     }
     /// byte-level call
     fn bytes(&mut self, inp: &[u8], junk: Option<&[u8]>) -> IoOut {
+        let inp_m = MisVec::from_slice_in(inp);
+        let inp: &[u8] = &inp_m;
         IoOut::unsupported()
     }
     /// consuming one-shot call; op in {"async","cts","padded"}
     fn oneshot(self: Box<Self>, op: &str, inp: &[u8], junk: Option<&[u8]>, inout: bool) -> IoOut {
+        let inp_m = MisVec::from_slice_in(inp);
+        let inp: &[u8] = &inp_m;
         IoOut::unsupported()
     }
     fn seek(&mut self, t: &str, p: u128) -> Res {
@@ -210,9 +264,11 @@ impl<M: EncMode + 'static> Obj for BlkEnc<M> {
         M::BlockSize::USIZE
     }
     fn blocks(&mut self, inp: &[u8], junk: Option<&[u8]>, multi: bool, inout: bool) -> IoOut {
+        let inp_m = MisVec::from_slice_in(inp);
+        let inp: &[u8] = &inp_m;
         match junk {
             None => {
-                let mut buf = inp.to_vec();
+                let mut buf = MisVec::from_slice(inp);
                 {
                     let bl = as_blocks_mut::<M::BlockSize>(&mut buf);
                     match (multi, inout) {
@@ -233,7 +289,7 @@ impl<M: EncMode + 'static> Obj for BlkEnc<M> {
                 IoOut::ok(buf)
             }
             Some(j) => {
-                let mut out = j.to_vec();
+                let mut out = MisVec::from_slice(j);
                 let ib = as_blocks::<M::BlockSize>(inp);
                 if multi {
                     let ob = as_blocks_mut::<M::BlockSize>(&mut out);
@@ -261,10 +317,12 @@ impl<M: EncMode + 'static> Obj for BlkEnc<M> {
         }
     }
     fn oneshot(self: Box<Self>, op: &str, inp: &[u8], junk: Option<&[u8]>, inout: bool) -> IoOut {
+        let inp_m = MisVec::from_slice_in(inp);
+        let inp: &[u8] = &inp_m;
         let m = self.0;
         match (op, junk) {
             ("async", None) if !inout => {
-                let mut buf = inp.to_vec();
+                let mut buf = MisVec::from_slice(inp);
                 if m.async_enc_inplace(&mut buf) {
                     IoOut::ok(buf)
                 } else {
@@ -272,7 +330,7 @@ impl<M: EncMode + 'static> Obj for BlkEnc<M> {
                 }
             }
             ("async", Some(j)) if !inout => {
-                let mut out = j.to_vec();
+                let mut out = MisVec::from_slice(j);
                 match m.async_enc_b2b(inp, &mut out) {
                     Some(true) => IoOut::ok(out),
                     Some(false) => IoOut::err(out),
@@ -280,7 +338,7 @@ impl<M: EncMode + 'static> Obj for BlkEnc<M> {
                 }
             }
             ("async", None) => {
-                let mut buf = inp.to_vec();
+                let mut buf = MisVec::from_slice(inp);
                 if m.async_enc((&mut buf[..]).into()) {
                     IoOut::ok(buf)
                 } else {
@@ -288,7 +346,7 @@ impl<M: EncMode + 'static> Obj for BlkEnc<M> {
                 }
             }
             ("async", Some(j)) => {
-                let mut out = j.to_vec();
+                let mut out = MisVec::from_slice(j);
                 // `encrypt_b2b` is `InOutBuf::new(in, out).map(|b| self.encrypt_inout(b))`
                 let r = match InOutBuf::new(inp, &mut out[..]) {
                     Ok(b) => Some(m.async_enc(b)),
@@ -303,13 +361,13 @@ impl<M: EncMode + 'static> Obj for BlkEnc<M> {
             (h, None) if is_padded(h) => {
                 // in place: buffer = message followed by room for the padding
                 let bs = M::BlockSize::USIZE;
-                let mut buf = inp.to_vec();
+                let mut buf = MisVec::from_slice(inp);
                 buf.resize(bs * (inp.len() / bs + 1), 0xA5);
                 let r = pad_dispatch!(h, P, m.encrypt_padded::<P>(&mut buf, inp.len()).map(|s| s.len()).ok());
                 match r {
                     Some(n) => IoOut {
                         res: Res::Ok,
-                        out: buf,
+                        out: buf.to_vec(),
                         outlen: n,
                     },
                     None => IoOut::err(buf),
@@ -325,21 +383,21 @@ impl<M: EncMode + 'static> Obj for BlkEnc<M> {
                 // NoPadding - the message is aligned)
                 let v = pad_dispatch!(h, P, m.encrypt_padded_vec::<P>(inp));
                 let n = v.len();
-                let mut out = j.to_vec();
+                let mut out = MisVec::from_slice(j);
                 out[..n].copy_from_slice(&v);
                 IoOut {
                     res: Res::Ok,
-                    out,
+                    out: out.to_vec(),
                     outlen: n,
                 }
             }
             (h, Some(j)) if is_padded(h) => {
-                let mut out = j.to_vec();
+                let mut out = MisVec::from_slice(j);
                 let r = pad_dispatch!(h, P, m.encrypt_padded_b2b::<P>(inp, &mut out).map(|s| s.len()).ok());
                 match r {
                     Some(n) => IoOut {
                         res: Res::Ok,
-                        out,
+                        out: out.to_vec(),
                         outlen: n,
                     },
                     None => IoOut::err(out),
@@ -382,9 +440,11 @@ impl<M: DecMode + 'static> Obj for BlkDec<M> {
         M::BlockSize::USIZE
     }
     fn blocks(&mut self, inp: &[u8], junk: Option<&[u8]>, multi: bool, inout: bool) -> IoOut {
+        let inp_m = MisVec::from_slice_in(inp);
+        let inp: &[u8] = &inp_m;
         match junk {
             None => {
-                let mut buf = inp.to_vec();
+                let mut buf = MisVec::from_slice(inp);
                 {
                     let bl = as_blocks_mut::<M::BlockSize>(&mut buf);
                     match (multi, inout) {
@@ -405,7 +465,7 @@ impl<M: DecMode + 'static> Obj for BlkDec<M> {
                 IoOut::ok(buf)
             }
             Some(j) => {
-                let mut out = j.to_vec();
+                let mut out = MisVec::from_slice(j);
                 let ib = as_blocks::<M::BlockSize>(inp);
                 if multi {
                     let ob = as_blocks_mut::<M::BlockSize>(&mut out);
@@ -433,10 +493,12 @@ impl<M: DecMode + 'static> Obj for BlkDec<M> {
         }
     }
     fn oneshot(self: Box<Self>, op: &str, inp: &[u8], junk: Option<&[u8]>, inout: bool) -> IoOut {
+        let inp_m = MisVec::from_slice_in(inp);
+        let inp: &[u8] = &inp_m;
         let m = self.0;
         match (op, junk) {
             ("async", None) if !inout => {
-                let mut buf = inp.to_vec();
+                let mut buf = MisVec::from_slice(inp);
                 if m.async_dec_inplace(&mut buf) {
                     IoOut::ok(buf)
                 } else {
@@ -444,7 +506,7 @@ impl<M: DecMode + 'static> Obj for BlkDec<M> {
                 }
             }
             ("async", Some(j)) if !inout => {
-                let mut out = j.to_vec();
+                let mut out = MisVec::from_slice(j);
                 match m.async_dec_b2b(inp, &mut out) {
                     Some(true) => IoOut::ok(out),
                     Some(false) => IoOut::err(out),
@@ -452,7 +514,7 @@ impl<M: DecMode + 'static> Obj for BlkDec<M> {
                 }
             }
             ("async", None) => {
-                let mut buf = inp.to_vec();
+                let mut buf = MisVec::from_slice(inp);
                 if m.async_dec((&mut buf[..]).into()) {
                     IoOut::ok(buf)
                 } else {
@@ -460,7 +522,7 @@ impl<M: DecMode + 'static> Obj for BlkDec<M> {
                 }
             }
             ("async", Some(j)) => {
-                let mut out = j.to_vec();
+                let mut out = MisVec::from_slice(j);
                 // `decrypt_b2b` is `InOutBuf::new(in, out).map(|b| self.decrypt_inout(b))`
                 let r = match InOutBuf::new(inp, &mut out[..]) {
                     Ok(b) => Some(m.async_dec(b)),
@@ -473,26 +535,26 @@ impl<M: DecMode + 'static> Obj for BlkDec<M> {
                 }
             }
             (h, None) if is_padded(h) => {
-                let mut buf = inp.to_vec();
+                let mut buf = MisVec::from_slice(inp);
                 let r = pad_dispatch!(h, P, m.decrypt_padded::<P>(&mut buf).map(|s| s.len()).ok());
                 match r {
                     Some(n) => IoOut {
                         res: Res::Ok,
-                        out: buf,
+                        out: buf.to_vec(),
                         outlen: n,
                     },
                     None => IoOut::err(buf),
                 }
             }
             (h, Some(j)) if is_padded(h) && inout && j.len() >= inp.len() => {
-                let mut out = j.to_vec();
+                let mut out = MisVec::from_slice(j);
                 match pad_dispatch!(h, P, m.decrypt_padded_vec::<P>(inp)) {
                     Ok(v) => {
                         let n = v.len();
                         out[..n].copy_from_slice(&v);
                         IoOut {
                             res: Res::Ok,
-                            out,
+                            out: out.to_vec(),
                             outlen: n,
                         }
                     }
@@ -500,12 +562,12 @@ impl<M: DecMode + 'static> Obj for BlkDec<M> {
                 }
             }
             (h, Some(j)) if is_padded(h) => {
-                let mut out = j.to_vec();
+                let mut out = MisVec::from_slice(j);
                 let r = pad_dispatch!(h, P, m.decrypt_padded_b2b::<P>(inp, &mut out).map(|s| s.len()).ok());
                 match r {
                     Some(n) => IoOut {
                         res: Res::Ok,
-                        out,
+                        out: out.to_vec(),
                         outlen: n,
                     },
                     None => IoOut::err(out),
@@ -738,16 +800,18 @@ where
         1
     }
     fn bytes(&mut self, inp: &[u8], junk: Option<&[u8]>) -> IoOut {
+        let inp_m = MisVec::from_slice_in(inp);
+        let inp: &[u8] = &inp_m;
         match junk {
             None => {
-                let mut buf = inp.to_vec();
+                let mut buf = MisVec::from_slice(inp);
                 match self.0.try_apply_keystream(&mut buf) {
                     Ok(()) => IoOut::ok(buf),
                     Err(_) => IoOut::err(buf),
                 }
             }
             Some(j) => {
-                let mut out = j.to_vec();
+                let mut out = MisVec::from_slice(j);
                 match self.0.apply_keystream_b2b(inp, &mut out) {
                     Ok(()) => IoOut::ok(out),
                     Err(_) => IoOut::err(out),
@@ -808,9 +872,11 @@ impl<K: CoreInfo + 'static> Obj for CoreObj<K> {
         K::BlockSize::USIZE
     }
     fn blocks(&mut self, inp: &[u8], junk: Option<&[u8]>, multi: bool, inout: bool) -> IoOut {
+        let inp_m = MisVec::from_slice_in(inp);
+        let inp: &[u8] = &inp_m;
         match junk {
             None => {
-                let mut buf = inp.to_vec();
+                let mut buf = MisVec::from_slice(inp);
                 {
                     let bl = as_blocks_mut::<K::BlockSize>(&mut buf);
                     if multi && inout {
@@ -826,7 +892,7 @@ impl<K: CoreInfo + 'static> Obj for CoreObj<K> {
                 IoOut::ok(buf)
             }
             Some(j) => {
-                let mut out = j.to_vec();
+                let mut out = MisVec::from_slice(j);
                 assert_eq!(inp.len(), out.len());
                 let ib = as_blocks::<K::BlockSize>(inp);
                 let ob = as_blocks_mut::<K::BlockSize>(&mut out);
@@ -1001,10 +1067,12 @@ impl<C: Ciph> Obj for BufE<C> {
         1
     }
     fn bytes(&mut self, inp: &[u8], junk: Option<&[u8]>) -> IoOut {
+        let inp_m = MisVec::from_slice_in(inp);
+        let inp: &[u8] = &inp_m;
         if junk.is_some() {
             return IoOut::unsupported();
         }
-        let mut buf = inp.to_vec();
+        let mut buf = MisVec::from_slice(inp);
         self.0.encrypt(&mut buf);
         IoOut::ok(buf)
     }
@@ -1042,10 +1110,12 @@ impl<C: Ciph> Obj for BufD<C> {
         1
     }
     fn bytes(&mut self, inp: &[u8], junk: Option<&[u8]>) -> IoOut {
+        let inp_m = MisVec::from_slice_in(inp);
+        let inp: &[u8] = &inp_m;
         if junk.is_some() {
             return IoOut::unsupported();
         }
-        let mut buf = inp.to_vec();
+        let mut buf = MisVec::from_slice(inp);
         self.0.decrypt(&mut buf);
         IoOut::ok(buf)
     }
@@ -1094,12 +1164,14 @@ impl<T: cts::Encrypt + cts::Decrypt + Clone + 'static> Obj for CtsObj<T> {
         1
     }
     fn oneshot(self: Box<Self>, op: &str, inp: &[u8], junk: Option<&[u8]>, inout: bool) -> IoOut {
+        let inp_m = MisVec::from_slice_in(inp);
+        let inp: &[u8] = &inp_m;
         if op != "cts" {
             return IoOut::unsupported();
         }
         match junk {
             None => {
-                let mut buf = inp.to_vec();
+                let mut buf = MisVec::from_slice(inp);
                 let r = match (self.dec, inout) {
                     (true, false) => self.t.decrypt(&mut buf),
                     (true, true) => self.t.decrypt_inout((&mut buf[..]).into()),
@@ -1112,7 +1184,7 @@ impl<T: cts::Encrypt + cts::Decrypt + Clone + 'static> Obj for CtsObj<T> {
                 }
             }
             Some(j) => {
-                let mut out = j.to_vec();
+                let mut out = MisVec::from_slice(j);
                 let r = match (self.dec, inout && inp.len() == out.len()) {
                     (true, false) => self.t.decrypt_b2b(inp, &mut out),
                     (true, true) => self.t.decrypt_inout(InOutBuf::new(inp, &mut out[..]).unwrap()),
